@@ -2,7 +2,7 @@
 from checks import textcomp, rtcomp, rtxcomp
 
 LEAN_TARGETS = ["LyModel.Props.C12", "LyModel.XmlTree.OpaqDoc", "LyModel.XmlTree.OpaqOk", "LyModel.XmlTree.OpaqRoundtrip",
-                "LyModel.XmlTree.OpaqCheck", "LyModel.XmlTree.OpaqFaithful", "LyModel.XmlTree.DataCheck", "LyModel.XmlTree.DataFaithful", "LyModel.XmlTree.SpecScope", "LyModel.XmlTree.ScopeFaithful"]
+                "LyModel.XmlTree.OpaqCheck", "LyModel.XmlTree.OpaqFaithful", "LyModel.XmlTree.DataCheck", "LyModel.XmlTree.DataFaithful", "LyModel.XmlTree.SpecScope", "LyModel.XmlTree.ScopeFaithful", "LyModel.JsonTree.MetaView"]
 AUDIT = "Audit/C12.lean"
 GENERATED = ["XmlEsc", "JsonEsc", "JsonTyping", "XmlNsFixes"]
 ASSUMPTIONS = ["UTF-8 well-formedness of the output is judged by expat / Python json in the correspondence run, not by the Lean spec readers",
